@@ -422,6 +422,37 @@ namespace bluetoe {
         // mapping of a last handle to a valid attribute index
         std::size_t last_handle_index( std::uint16_t ending_handle );
 
+        // filters attributes by 16 bit or 128 bit attribute type
+        struct attribute_type_filter
+        {
+            attribute_type_filter( const std::uint8_t* bytes, bool is_128bit )
+                : short_filter_( bytes, is_128bit )
+                , bytes_( bytes )
+                , is_128bit_( is_128bit )
+            {
+            }
+
+            bool operator()( std::size_t index, const details::attribute& attr ) const
+            {
+                if ( short_filter_( index, attr ) )
+                    return true;
+
+                // details::attribute contains no 128 bit UUID; the 128 bit type of a Characteristic Value is stored in
+                // the Characteristic Declaration, which is the attribute in front of the value
+                if ( !is_128bit_ || index == 0 || attr.uuid != bits( details::gatt_uuids::internal_128bit_uuid ) )
+                    return false;
+
+                std::uint8_t uuid[ 16 ];
+                write_128bit_uuid( uuid, attribute_at( index - 1 ) );
+
+                return std::equal( std::begin( uuid ), std::end( uuid ), bytes_ );
+            }
+
+            details::uuid_filter    short_filter_;
+            const std::uint8_t*     bytes_;
+            bool                    is_128bit_;
+        };
+
         std::size_t advertising_data_impl( std::uint8_t* buffer, std::size_t buffer_size, const auto_advertising_data& ) const;
 
         template < class T >
@@ -1289,7 +1320,7 @@ namespace bluetoe {
         details::collect_attributes< server< Options... > > iterator( output + 2, output + out_size,
             connection.client_configurations(), connection.security_attributes(), *this );
 
-        all_attributes( starting_handle, ending_handle, iterator, details::uuid_filter( input + 5, in_size == 5 + 16 ) );
+        all_attributes( starting_handle, ending_handle, iterator, attribute_type_filter( input + 5, in_size == 5 + 16 ) );
 
         if ( !iterator.empty() )
         {
